@@ -515,6 +515,20 @@ func (w *world) close() {
 	}
 }
 
+// retryBind retries f while it fails with "address already in use" (ephemeral
+// ports run out when many checks run side by side). Waiting here only delays
+// the case; if the resource does not become available the case is inconclusive.
+func retryBind(f func() error) error {
+	var err error
+	for try := 0; try < 120; try++ {
+		if err = f(); err == nil || !strings.Contains(err.Error(), "address already in use") {
+			return err
+		}
+		time.Sleep(250 * time.Millisecond)
+	}
+	return err
+}
+
 func buildWorld(sc *scenario) (*world, error) {
 	p := getPKI()
 	w := &world{sc: sc}
@@ -571,7 +585,8 @@ func buildWorld(sc *scenario) (*world, error) {
 				}
 				return nil
 			}
-			srv, err := smtpd.New(cfg)
+			var srv *smtpd.Server
+			err := retryBind(func() (e error) { srv, e = smtpd.New(cfg); return })
 			if err != nil {
 				w.close()
 				return nil, err
@@ -586,13 +601,7 @@ func buildWorld(sc *scenario) (*world, error) {
 	// mockdns binds a TCP port first and then the same UDP port; the latter may
 	// be taken by another process on a busy machine, so retry.
 	var dnsSrv *mockdns.Server
-	var err error
-	for try := 0; try < 50; try++ {
-		dnsSrv, err = mockdns.NewServerWithLogger(zones, nopLogger{}, false)
-		if err == nil {
-			break
-		}
-	}
+	err := retryBind(func() (e error) { dnsSrv, e = mockdns.NewServerWithLogger(zones, nopLogger{}, false); return })
 	if err != nil {
 		w.close()
 		return nil, err
@@ -1148,10 +1157,23 @@ func TestVerif(t *testing.T) {
 			}
 			w.tgt.Close()
 			w.tgt = nil
-			leaked := 0
+			// observation only: connections the target left open. A pooled
+			// connection that was dropped (not closed, not returned) shows RSET as
+			// its last command; anything else is merely still closing.
+			leaked, closing := 0, 0
 			for _, s := range w.servers {
-				if !s.srv.WaitIdle(300 * time.Millisecond) {
-					leaked += s.srv.ConnCount()
+				if s.srv.WaitIdle(300 * time.Millisecond) {
+					continue
+				}
+				for _, cr := range s.srv.Transcript() {
+					if cr.Ended {
+						continue
+					}
+					if n := len(cr.Commands); n > 0 && cr.Commands[n-1].Stage == smtpd.StageRset {
+						leaked++
+					} else {
+						closing++
+					}
 				}
 			}
 			evs, problems := w.dataEvents(idx)
@@ -1240,11 +1262,14 @@ func TestVerif(t *testing.T) {
 					}
 				}
 				if anyReq {
-					r.Count("observation_connections_left_open_after_target_close/history_has_later_requiretls_message(not judged)", int64(leaked))
+					r.Count("observation_idle_pooled_connection_dropped_unclosed/history_has_later_requiretls_message(not judged)", int64(leaked))
 				} else {
-					r.Count("observation_connections_left_open_after_target_close/other(not judged)", int64(leaked))
+					r.Count("observation_idle_pooled_connection_dropped_unclosed/other(not judged)", int64(leaked))
 					r.Sample(map[string]any{"left_open_without_requiretls": sc, "outcomes": outs, "data_events": evs})
 				}
+			}
+			if closing > 0 {
+				r.Count("observation_connections_still_closing_300ms_after_target_close(not judged)", int64(closing))
 			}
 			r.Count("histories", 1)
 			if len(sc.Domains) > 1 {
